@@ -421,7 +421,7 @@ func syntaxChild(mode string) error {
 				out.Write(b)
 				out.WriteByte('\n')
 				out.Flush()
-			case <-time.After(3 * time.Second):
+			case <-time.After(8 * time.Second):
 				out.Flush()
 				os.Stdout.Write([]byte("\"HANG\"\n"))
 				os.Exit(3)
